@@ -275,6 +275,10 @@ def derive_patterns(rng, values, n_values=3):
         out.append(([re.escape(v)], True, True, 're-escaped'))
         out.append(([re.escape(v.swapcase())], False, True, 're-escaped-nocase'))
         out.append(([re.escape(pre) + '.*'], True, True, 're-prefix'))
+        # regular-expression syntax whose letters are case-significant (\S \D \W ...), with and without is_case:
+        # ignoring letter case applies to the values, never to the syntax of the pattern
+        out.append(([re.escape(pre.swapcase()) + r'\S*'], False, True, 're-prefix-class-nocase'))
+        out.append(([re.escape(pre) + r'\D*\S*'], rng.random() < 0.5, True, 're-prefix-classes'))
         out.append(([v, pre + '*'], True, False, 'list:exact,prefix*'))
         out.append(([pre + '*', v], True, False, 'list:prefix*,exact'))
         out.append(([v, v], True, False, 'list:exact,exact'))
@@ -284,6 +288,8 @@ def derive_patterns(rng, values, n_values=3):
         out.append(([a[:1] + '*', b, '?' + a[1:]], True, False, 'list:wild,exact,wild'))
         out.append(([re.escape(a), re.escape(b[:1]) + '.*'], True, True, 'list:re,re'))
         out.append(([a.swapcase(), b[:1].swapcase() + '*'], False, False, 'list:nocase'))
+    out.append(([r'\S+'], False, True, 're-class-nocase'))
+    out.append(([r'[^\W\d]\w*|\W.*|\d.*'], False, True, 're-classes-alt-nocase'))
     out.append((['zz_nomatch'], True, False, 'nomatch'))
     out.append((['*'], True, False, 'star'))
     return out
